@@ -72,7 +72,20 @@ def nontrivial(e):
     return False
 
 
+def threshold_on_data_value(e):
+    """input-class signature of the known rounding defect: an internal node whose threshold
+    coincides with a training value of its feature (the midpoint of two neighbouring doubles is
+    one of them).  Correct midpoints of exactly projected data are never data values."""
+    try:
+        return any(n["t"] >= 0 and n["thrOk"] and any(row[n["f"]] == n["thr"] for row in e["X"])
+                   for n in e["nodes"])
+    except Exception:
+        return False
+
+
 def key_of(e, clause):
+    if e["ev"] == "TreeFit" and e.get("status") == "ok" and e.get("xkind") == "rank" and threshold_on_data_value(e):
+        return "%s tree: split threshold equals the upper of two neighbouring doubles" % e["kind"]
     if e["ev"] == "ArgSort":
         return "argsort n=%d: %s" % (len(e["v"]), clause)
     if e["ev"] in ("Refit", "Scaled"):
@@ -127,12 +140,17 @@ def run(ctx):
     # ---- design model
     mc_cfgs = ["tree/TreeGrowMC_%s.cfg" % ctx.tier]
     if ctx.thorough:
-        mc_cfgs.append("tree/TreeGrowMC2_thorough.cfg")
+        # two features (all tie orders); the quick scope with three targets at every size
+        mc_cfgs += ["tree/TreeGrowMC2_thorough.cfg", "tree/TreeGrowMC3_thorough.cfg"]
     prints = []
     for cfg in mc_cfgs:
-        _, pr = ctx.tlc_mc("tree/TreeGrow.tla", cfg, must_cover=("Start", "SplitNode", "Finish"), timeout=2400,
+        _, pr = ctx.tlc_mc("tree/TreeGrow.tla", cfg, must_cover=("Start", "SplitNode", "Finish"), timeout=3000,
                            keep_prints=True, heap="6g")
         prints += pr
+    # the pre-sort the growth relies on
+    sort_cfgs = ["tree/TreeArgSortMC_%s.cfg" % ctx.tier] + (["tree/TreeArgSortMC2_thorough.cfg"] if ctx.thorough else [])
+    for cfg in sort_cfgs:
+        ctx.tlc_mc("tree/TreeArgSort.tla", cfg, must_cover=("Insertion", "Partition"), timeout=3000)
     cases = group_replays(prints)
     if not cases:
         raise vlib.ToolError("TreeGrow printed no REPLAY line")
